@@ -159,7 +159,7 @@ structure Book where
 
 mutual
 /-- `specialize_nonterminals` -/
-def specialize (sh : Shell) (fbs : AList String) : Expr → Book → Expr × Book
+def specialize (sh : Shell) (fbs : AList String) (defined : List String) : Expr → Book → Expr × Book
   | .term t d l s, b => (.term t d l s, b)
   | .cmd c a l s, b => (.cmd c a l s, b)
   | .nonterm n l s, b =>
@@ -169,6 +169,8 @@ def specialize (sh : Shell) (fbs : AList String) : Expr → Book → Expr × Boo
       | some sp => some (sp.cmd, true,
           { b with specs := b.specs.map (fun p => if p.1 == n then (p.1, { p.2 with used := true }) else p) })
       | none =>
+        -- a plain definition overrides the built-in meaning; it is expanded later
+        if defined.contains n then none else
         match builtinCmd sh n with
         | some c => some (c, true, b)
         | none =>
@@ -178,18 +180,18 @@ def specialize (sh : Shell) (fbs : AList String) : Expr → Book → Expr × Boo
     match pick with
     | none => (.nonterm n l s, b)
     | some (c, compadd, b) => (.cmd c (sh == .zsh && compadd) l s, b)
-  | .sub c l s, b => let (c', b) := specialize sh fbs c b; (.sub c' l s, b)
-  | .seq cs s, b => let (cs', b) := specializeL sh fbs cs b; (.seq cs' s, b)
-  | .alt cs s, b => let (cs', b) := specializeL sh fbs cs b; (.alt cs' s, b)
-  | .fb cs s, b => let (cs', b) := specializeL sh fbs cs b; (.fb cs' s, b)
-  | .opt c s, b => let (c', b) := specialize sh fbs c b; (.opt c' s, b)
-  | .many1 c s, b => let (c', b) := specialize sh fbs c b; (.many1 c' s, b)
+  | .sub c l s, b => let (c', b) := specialize sh fbs defined c b; (.sub c' l s, b)
+  | .seq cs s, b => let (cs', b) := specializeL sh fbs defined cs b; (.seq cs' s, b)
+  | .alt cs s, b => let (cs', b) := specializeL sh fbs defined cs b; (.alt cs' s, b)
+  | .fb cs s, b => let (cs', b) := specializeL sh fbs defined cs b; (.fb cs' s, b)
+  | .opt c s, b => let (c', b) := specialize sh fbs defined c b; (.opt c' s, b)
+  | .many1 c s, b => let (c', b) := specialize sh fbs defined c b; (.many1 c' s, b)
   | .dd c d s, b => (.dd c d s, b)  -- `unreachable!()` in the code: erased by `distribute`
-def specializeL (sh : Shell) (fbs : AList String) : ExprL → Book → ExprL × Book
+def specializeL (sh : Shell) (fbs : AList String) (defined : List String) : ExprL → Book → ExprL × Book
   | .nil, b => (.nil, b)
   | .cons e es, b =>
-    let (e', b) := specialize sh fbs e b
-    let (es', b) := specializeL sh fbs es b
+    let (e', b) := specialize sh fbs defined e b
+    let (es', b) := specializeL sh fbs defined es b
     (.cons e' es', b)
 end
 
@@ -271,32 +273,24 @@ def dfs (g : Graph) : Nat → String → List (String × Span) → DfsState →
     go children st
 
 /-- Returns the order in which definitions get resolved (dependencies first), restricted like
-the code to definitions that depend on something; or the spans of a cycle. Vertices that are not
-reachable from a not-depended-on vertex are never visited (as in the code). -/
+the code to definitions that depend on something; or the spans of a cycle. -/
 def resolutionOrder (defs : AList (Span × Expr)) : Except (List Span) (List String) :=
   if defs.isEmpty then .ok [] else
   let g := depGraph defs
   let rs := roots g
   let n := g.length + 1
-  if rs.isEmpty then
-    match g with
-    | [] => .ok []
-    | (v, _) :: _ =>
+  -- roots first, then every vertex not visited yet (those can only exist if there is a cycle)
+  let rec loop : List String → DfsState → Except (List Span) DfsState
+    | [], st => .ok st
+    | v :: rest, st =>
+      if st.visited.contains v then loop rest st else
       let sp := ((defs.get? v).map (·.1)).getD default
-      match dfs g n v [(v, sp)] ⟨[], []⟩ with
+      match dfs g n v [(v, sp)] st with
       | .error e => .error e
-      | .ok _ => .error []   -- `unreachable!()`: without roots every vertex lies on a cycle
-  else
-    let rec loop : List String → DfsState → Except (List Span) DfsState
-      | [], st => .ok st
-      | v :: rest, st =>
-        let sp := ((defs.get? v).map (·.1)).getD default
-        match dfs g n v [(v, sp)] st with
-        | .error e => .error e
-        | .ok st => loop rest { st with result := st.result ++ [v] }
-    match loop rs ⟨[], []⟩ with
-    | .error e => .error e
-    | .ok st => .ok (st.result.filter fun v => !((g.get? v).getD []).isEmpty)
+      | .ok st => loop rest { st with result := st.result ++ [v] }
+  match loop (rs ++ (g.map (·.1)).filter (fun v => !rs.contains v)) ⟨[], []⟩ with
+  | .error e => .error e
+  | .ok st => .ok (st.result.filter fun v => !((g.get? v).getD []).isEmpty)
 
 /-! ### check_subword_spaces -/
 
@@ -467,10 +461,11 @@ def validate (g : Grammar) (sh : Shell) : Outcome Valid :=
   | .crash s => .crash s
   | .ok (specs, fbs) =>
   let book : Book := ⟨specs, defs.map fun (n, s, _) => (n, s)⟩
+  let defined := defs.map (·.1)
   let (defs, book) := defs.foldl (init := (([] : AList (Span × Expr)), book)) fun (acc, b) (n, s, e) =>
-    let (e', b) := specialize sh fbs e b
+    let (e', b) := specialize sh fbs defined e b
     (acc ++ [(n, (s, e'))], b)
-  let (expr, book) := specialize sh fbs expr book
+  let (expr, book) := specialize sh fbs defined expr book
   let unusedSpecs := book.specs.filterMap fun (n, sp) => if sp.used then none else some (n, sp.span)
   match resolutionOrder defs with
   | .error spans => .err .nonterminalDefinitionsCycle spans
